@@ -74,12 +74,73 @@ func vJSONUnmarshal(data []byte, v any) error {
 		}
 		t.Version = eth2util.BuilderVersionV1
 		return nil
+	case *AttestationData:
+		// encoding/json hands the bytes to the type's own UnmarshalJSON
+		return t.UnmarshalJSON(data)
+	case *attestationDataJSON:
+		if c14Fail {
+			return c14Err{}
+		}
+		if !c14DataNull {
+			vrt.FillDecoded(&t.Data, 0)
+		}
+		if !c14DutyNull {
+			vrt.FillDecoded(&t.Duty, 0)
+		}
+		return nil
 	}
 	if c14FailObj {
 		return c14Err{}
 	}
 	vrt.FillDecoded(v, c14NilPos)
 	return nil
+}
+
+var c14DataNull, c14DutyNull bool
+
+func init() { VerifHarnesses["VerifC14Unsigned"] = VerifC14Unsigned }
+
+// VerifC14Unsigned: unsigned attester data as it arrives inside a consensus message: JSON in which attestation_data and/or
+// attestation_duty are missing or null. core.AttestationData.UnmarshalJSON dereferences both; the panic is turned into an
+// error by the recovering deferred closure of UnsignedDataSetFromProto - the callers (the consensus decide callback and the
+// attestation comparison) have no recovery of their own. Params: datanull, dutynull (0/1). Engine: model_recover=1.
+func VerifC14Unsigned() {
+	c14DataNull, c14DutyNull = vrt.Param("datanull") == 1, vrt.Param("dutynull") == 1
+	c14Fail = vrt.Bool("malformed")
+	js := "{"
+	if !vrt.Symbolic() {
+		vrt.Assume(!c14Fail)
+		duty := `{"pubkey":"0x` + c14Zero(96) + `","slot":"1","validator_index":"1","committee_index":"0","committee_length":"8","committees_at_slot":"1","validator_committee_index":"0"}`
+		data := `{"slot":"1","index":"0","beacon_block_root":` + c14Root + `,"source":{"epoch":"0","root":` + c14Root + `},"target":{"epoch":"1","root":` + c14Root + `}}`
+		if c14DataNull {
+			data = "null"
+		}
+		if c14DutyNull {
+			duty = "null"
+		}
+		js = `{"attestation_data":` + data + `,"attestation_duty":` + duty + `}`
+	}
+	set, err := UnsignedDataSetFromProto(DutyAttester, &pbv1.UnsignedDataSet{Set: map[string][]byte{"0xaa": []byte(js)}})
+	vrt.Reach("decoder returned")
+	if c14DataNull || c14DutyNull {
+		vrt.Assert("structurally incomplete attester data is rejected with an error", err != nil)
+	}
+	if err == nil {
+		for _, d := range set {
+			_, _ = d.Clone()
+			_, _ = json.Marshal(d)
+		}
+		vrt.Reach("accepted")
+	}
+	vrt.Reach("end")
+}
+
+func c14Zero(n int) string {
+	b := make([]byte, n)
+	for i := range b {
+		b[i] = '0'
+	}
+	return string(b)
 }
 
 type c14Client struct{ eth2wrap.Client }
